@@ -354,8 +354,11 @@ def move_facts(eng, st, binding, pre):
             st.fact(Implies(And(0 <= a, a <= i0, i0 <= i1, i1 <= n),
                             JT(sl(Q, a, i1)) == Concat(JT(sl(Q, a, i0)), JT(sl(Q, i0, i1)))))
             st.fact(Implies(And(0 <= a), JT(sl(Q, a, a)) == Empty(Str)))
+            for hk in MOVE_IMAGE_HOOKS:
+                hk(st, And(0 <= a, a <= i0, i0 <= i1, i1 <= n), JT(sl(Q, a, i1)), JT(sl(Q, a, i0)), JT(sl(Q, i0, i1)))
 
 
+MOVE_IMAGE_HOOKS = []      # homomorphic images of the additivity instances (e.g. NW), registered by other domains
 REG.post_hooks.append(move_facts)
 
 cond_tok = Function('cond_tok', Tok, BoolSort())
@@ -455,3 +458,103 @@ REG.add(Contract(
         A('materialised-items', 'forall(k, old(self.m), self.m, self.Q[k].position == self.i and '
                                 'len(self.Q[k].text) == 1 and self.Q[k].cat == -1)')],
         decreases=_n.loops[0].decreases)}))
+
+
+# =====================================================================================================
+# CharToLineOffset: view <src, breaks, n>; breaks = nlpos(src) = ascending offsets of the '\n' characters
+# =====================================================================================================
+from pyvc.sorts import IntSeq
+from pyvc.spec import QBool
+
+NLPOS = Function('nlpos', Str, IntSeq)
+REG.view(ClassView('utils.CharToLineOffset', 'CLO', {'src': 'str', 'breaks': 'seq[int]', 'n': 'int'}))
+
+
+class CLORep:
+    MAP = {'line_break_positions': 'breaks', 'src_len': 'n'}
+
+    def load(self, eng, st, obj, a):
+        a = self.MAP.get(a, a)
+        f = st.heap[obj.a['ref']]
+        return [('val', st, f[a])] if a in f else None
+
+    def store(self, eng, st, obj, a, v):
+        st.heap[obj.a['ref']][self.MAP.get(a, a)] = v
+        if self.MAP.get(a, a) == 'breaks' and v.z is not None and z3.is_app(v.z) and v.z.decl().eq(NLPOS):
+            st.heap[obj.a['ref']]['src'] = VS(v.z.arg(0))     # ghost field: the string the offsets were taken from
+        return [('fall', st)]
+
+
+REG.views['CLO'].repmap = CLORep()
+
+
+def nlpos_facts(eng, st, s):
+    """definition of nlpos(s) = [i for i, c in enumerate(s) if c == '\\n'] (ascending, sound and complete)"""
+    B = NLPOS(s)
+    LF = IntVal(10)
+    eng.assume_clause(st, [
+        QBool(BoolVal(True), IntVal(0), Length(B), lambda j: And(0 <= B[j], B[j] < Length(s), s[B[j]] == LF)),
+        QBool(BoolVal(True), IntVal(0), Length(B) - 1, lambda j: B[j] < B[j + 1])])
+    st.fact(Length(B) <= Length(s))
+
+
+def nlcomp_hook(eng, n, st):
+    """[i for i, c in enumerate(src) if c == '\\n']"""
+    if isinstance(n, ast.ListComp) and ast.unparse(n) in ("[i for (i, c) in enumerate(src) if c == '\\n']", "[i for i, c in enumerate(src) if c == '\\n']"):
+        outs = []
+        for o in eng.ev(ast.Name(id='src', ctx=ast.Load()), st):
+            if o[0] == 'raise':
+                outs.append(o)
+                continue
+            s = strz(o[2]) if o[2].ty in ('str', 'tok') else None
+            if s is None:
+                raise Unsupported('CharToLineOffset over ' + o[2].ty)
+            nlpos_facts(eng, o[1], s)
+            outs.append(('val', o[1], VSeq(NLPOS(s), 'int')))
+        return outs
+    return None
+
+
+REG.call_hooks.insert(0, nlcomp_hook)
+
+
+def bisect_hook(eng, n, st):
+    """bisect.bisect(a, x) (= bisect_right) / bisect.bisect_left: external, under its documented contract"""
+    if isinstance(n, ast.Call) and isinstance(n.func, ast.Attribute) and isinstance(n.func.value, ast.Name) and \
+            n.func.value.id == 'bisect' and n.func.attr in ('bisect', 'bisect_right', 'bisect_left') and len(n.args) == 2:
+        cur, raises = eng.evs(n.args, st)
+        outs = list(raises)
+        for s, (a, x) in cur:
+            if a.ty != 'seq' or a.a['elem'] != 'int' or x.ty != 'int':
+                raise Unsupported('bisect on %s' % a.ty)
+            r = fresh('bisect', IntSort())
+            s.assume(And(0 <= r, r <= Length(a.z)))
+            left = n.func.attr == 'bisect_left'
+            eng.assume_clause(s, [
+                QBool(BoolVal(True), IntVal(0), r, (lambda j, a=a, x=x: a.z[j] < x.z) if left else
+                      (lambda j, a=a, x=x: a.z[j] <= x.z)),
+                QBool(BoolVal(True), r, Length(a.z), (lambda j, a=a, x=x: a.z[j] >= x.z) if left else
+                      (lambda j, a=a, x=x: a.z[j] > x.z))])
+            eng.touch(s, r)
+            eng.touch(s, r - 1)
+            outs.append(('val', s, VI(r)))
+        return outs
+    return None
+
+
+REG.call_hooks.insert(0, bisect_hook)
+
+
+@REG.specfun('nlpos')
+def _nlpos(ctx, s):
+    nlpos_facts(ctx.engine, ctx.st, strz(s))
+    return VSeq(NLPOS(strz(s)), 'int')
+
+
+REG.add(Contract('utils.CharToLineOffset.__init__', types={'self': 'CLO', 'src': 'strlike'},
+                 modifies=['self.src', 'self.breaks', 'self.n'],
+                 ensures=[P(['C13'], 'breaks', 'self.breaks == nlpos(src)'), P(['C13'], 'length', 'self.n == len(src)'),
+                          A('ghost-src', 'self.src == src')]))
+REG.add(Contract('utils.CharToLineOffset.__call__', types={'self': 'CLO', 'char_pos': 'int'}, result='tuple[int,int]',
+                 requires=[A('breaks', 'self.breaks == nlpos(self.src)'), A('length', 'self.n == len(self.src)')],
+                 ensures=[A('line-in-range', '0 <= result[0] and result[0] <= len(self.breaks)')]))
